@@ -28,7 +28,7 @@ from sim.oplog import OpLog
 from sim.shrink import list_reductions
 
 CH = ['FSC-H', 'SSC-H', 'FL1-H', 'FL2-H', 'Time']
-SAMPLES = ['raw', 'rfi', 'mef', 'view', 'parent', 'col', 'rawf']
+SAMPLES = ['raw', 'rfi', 'mef', 'view', 'parent', 'col', 'rawf', 'tfm']
 ARRAYS = ['arr', 'arri']
 SCALES = ['linear', 'log', 'logicle']
 
@@ -99,6 +99,8 @@ class Pool(object):
         if name == 'mef':
             r = F.transform.to_rfi(F.io.FCSData(self.path), CH[:4])
             return F.transform.to_mef(r, ['FL1-H'], [functools.partial(powerlaw, 1.1, 2.0)], ['FL1-H'])
+        if name == 'tfm':
+            return F.transform.transform(F.io.FCSData(self.path), ['FSC-H', 'FL1-H'], np.arcsinh)
         if name == 'parent':
             return F.io.FCSData(self.path)
         if name == 'view':
@@ -154,10 +156,10 @@ def gen_call(rng, plots=True):
                        ('io_fn', 2), ('logicle', 2), ('mutate', 5)] +
                       ([('plot_hist1d', 2), ('plot_density2d', 3), ('plot_scatter2d', 1), ('plot_scatter3d', 1),
                         ('plot_density_and_hist', 2), ('plot_violin', 1), ('plot_std_crv', 1)] if plots else []))
-    S = rng.choice(['raw', 'rfi', 'mef', 'view', 'rawf', 'parent'])
+    S = rng.choice(['raw', 'rfi', 'mef', 'view', 'rawf', 'parent', 'tfm'])
     if fam == 'mutate':
         kind = rng.choice(['values', 'range', 'text'])
-        op = {'fn': 'mutate', 'obj': rng.choice(['raw', 'rfi', 'mef', 'rawf', 'col']), 'kind': kind}
+        op = {'fn': 'mutate', 'obj': rng.choice(['raw', 'rfi', 'mef', 'rawf', 'col', 'tfm']), 'kind': kind}
         if kind == 'values':
             op.update(col=rng.randint(0, 4), delta=rng.choice([1, 300, 7]))
         elif kind == 'range':
@@ -596,17 +598,17 @@ class C13Machine(Machine):
     assumptions = ['file position of buffer arguments is not part of the fingerprint',
                    'lists returned by accessors are allowed to alias stored state (the property speaks about samples)']
 
-    SANDWICH = [(o, m) for o in ('raw', 'rfi', 'mef', 'rawf', 'col')
+    SANDWICH = [(o, m) for o in ('raw', 'rfi', 'mef', 'rawf', 'col', 'tfm')
                 for m in ({'kind': 'values', 'col': 2, 'delta': 300}, {'kind': 'range', 'col': 2, 'end': 1, 'value': 9999.0},
                           {'kind': 'range', 'col': 2, 'end': 0, 'value': -50.0})]
 
     # quick: one sixth of the first calls (every object kind, every 6th first call); thorough: every ordered pair
-    N_PAIR_RUNS = {'quick': 6 * 22, 'thorough': 6 * 86}
+    N_PAIR_RUNS = {'quick': 7 * 22, 'thorough': 7 * 86}
 
     def plan(self, tier):
         if tier == 'quick':
-            return {'runs': 132 + 15 + 4200, 'budget_s': 110, 'batch': 6}
-        return {'runs': 516 + 15 + 90000, 'budget_s': 1700, 'batch': 12}
+            return {'runs': 154 + 18 + 4200, 'budget_s': 110, 'batch': 6}
+        return {'runs': 602 + 18 + 90000, 'budget_s': 1700, 'batch': 12}
 
     def generate(self, rng, tier, index):
         spec = gen_pool_spec(rng.sub('spec'))
@@ -622,7 +624,7 @@ class C13Machine(Machine):
             return {'arm': 'sandwich', 'obj': obj, 'mop': dict(mop, fn='mutate', obj=obj), 'spec': spec, 'fspec': fspec,
                     'seed': rng.randint(0, 2 ** 31 - 1)}
         if index < self.N_PAIR_RUNS.get(tier, 0):
-            objs = ['raw', 'rfi', 'mef', 'view', 'rawf', 'col']
+            objs = ['raw', 'rfi', 'mef', 'view', 'rawf', 'col', 'tfm']
             obj = objs[index % len(objs)]
             stride = 4 if tier == 'quick' else 1
             return {'arm': 'pairs', 'obj': obj, 'a': (index // len(objs)) * stride, 'spec': spec, 'fspec': fspec,
